@@ -4,7 +4,8 @@ spec:  SSTable.tla DamageOk / SSTableTrace.tla clause NeverDifferentValue: per k
        readFailed or the ORIGINAL value; scans only yield genuine pairs in ascending order.
 bind:  generated tables (1..40 records, non-empty values plus some empty / nil ones, each compression type): every byte offset of data.rio x
        {8 single-bit flips, 0x00, 0xFF, 0x91, 0x8d, 0x4c} (sampled offsets in quick), every truncation length, swaps of two records;
-       each damaged table is opened with defaults (verify on load) and with SkipHashCheckOnLoad + EnableHashCheckOnReads; Get of every
+       each damaged table is opened with defaults (verify on load) and with SkipHashCheckOnLoad + EnableHashCheckOnReads under all four
+       index loaders; Get of every
        key, full scan and range scan are recorded and judged by TLC.
 """
 import json
@@ -39,7 +40,7 @@ def run(tier):
                 v = rng.choice(["EMPTY", "NIL"])
             writes.append({"k": k, "v": v, "fault": ""})
         size_guess = sum(len(vals[t]) for t in toks) + 12 * n
-        step = 1 if (thorough and size_guess < 4000) or size_guess < 250 else max(1, size_guess // (1200 if thorough else 200))
+        step = 1 if (thorough and size_guess < 4000) or size_guess < 250 else max(1, size_guess // (1200 if thorough else 120))
         case = {"writes": writes, "dcomp": ti % 4, "step": step, "kinds": ["byte", "trunc", "swap"]}
         batches.append(("t%d-n%d-c%d" % (ti, n, ti % 4), keys, vals, [case]))
 
